@@ -11,6 +11,7 @@ macro_rules! props {
     };
 }
 props! {
+    c01: C01: "C01",
     c02: C02: "C02",
     c03: C03: "C03",
     c04: C04: "C04",
